@@ -393,6 +393,9 @@ class Engine:
             return st.new_ext(t.name, {"$term": term})
         if k == "tuple":
             items = []
+            tt = z3.simplify(term) if z3.is_app(term) else term
+            if z3.is_app(tt) and tt.decl().name() == self.tuple_fn_names(t) + "_mk" and tt.num_args() == len(t.args):
+                return VTuple([self.wrap(st, tt.arg(i), et) for i, et in enumerate(t.args)])
             for i, et in enumerate(t.args):
                 f = self.tuple_proj(t, i)
                 items.append(self.wrap(st, f(term), et))
@@ -477,6 +480,8 @@ class Engine:
             return VOpt(z3.Select(mn, obj.ref), self.wrap(st, z3.Select(mv, obj.ref), ft.args[0]))
         m = st.fmap(self.field_owner(obj.cls, field), field, sort_of(ft))
         term = z3.Select(m, obj.ref)
+        if st.ghost.get("dyn") and z3.is_int_value(z3.simplify(obj.ref)):
+            term = z3.simplify(term)
         v = self.wrap(st, term, ft)
         self.assume_wf(st, v, m)
         if self.line_sort_hook:
@@ -1103,7 +1108,17 @@ class Engine:
         base = self.ev(n.value, st)
         return self.get_attr(st, base, n.attr, n)
 
+    def dynamic(self, st, base):
+        """Objects of a concretely built graph (C15) know their dynamic class by reference."""
+        dyn = st.ghost.get("dyn")
+        if dyn and isinstance(base, VObj):
+            r = z3.simplify(base.ref)
+            if z3.is_int_value(r) and r.as_long() in dyn and dyn[r.as_long()].key != base.cls.key:
+                return VObj(dyn[r.as_long()], base.ref, False)
+        return base
+
     def get_attr(self, st, base, attr, node):
+        base = self.dynamic(st, base)
         if isinstance(base, VObj):
             if base.nullable:
                 self.require(st, base.ref != 0, "AttributeError", node, f"None.{attr}")
